@@ -1027,6 +1027,129 @@ func demoLinger(stats map[string]int) string {
 	return "Hist [" + strings.Join(w.evs, "; ") + "]"
 }
 
+// acceptedHistory: a scripted history for the clause "a connected socket before a listener": a
+// connection is ACCEPTED through a listener (full three-way handshake from a scripted peer), the
+// registration the stack made for the accepted endpoint is read back (EAccept: demultiplexer it
+// sits in), listeners are closed / re-created around it (wildcard <-> specific local address), and a
+// data segment for the connection's exact 4-tuple is injected (EData: did the accepted endpoint
+// read the bytes).  Remote ports stay below 20000 so that the registration is not taken for a
+// SYN-RCVD child.
+func acceptedHistory(r *gen.Rng, stats map[string]int) string {
+	w := newWorld(r, false, stats)
+	nic := 1 + r.Intn(2)
+	k := 1 + r.Intn(3)
+	for i := 0; i < k; i++ {
+		w.addAddr(nic, pV4, local4[nic][i])
+	}
+	if r.Intn(2) == 0 {
+		w.addAddr(3-nic, pV4, local4[3-nic][0])
+	}
+	A := local4[nic][r.Intn(k)]
+	R := foreign4[r.Intn(len(foreign4))]
+	port := uint16(80 + r.Intn(900))
+	sport := uint16(10000 + r.Intn(5000))
+	variant := r.Intn(6)
+	l1addr := ""
+	if variant >= 3 {
+		l1addr = A
+	}
+	L1 := w.newSock(pTCP, pV4)
+	if w.bind(L1, 0, l1addr, port) != 0 || w.listen(L1) != 0 {
+		return "Hist [" + strings.Join(w.evs, "; ") + "]"
+	}
+	link := w.links[nic]
+	w.tcpFrames()
+	iss := uint32(1000 + r.Intn(1<<20))
+	seg := func(flags byte, seq, ack uint32, pl []byte) []byte {
+		t := netx.TCPBytes([]byte(R), []byte(A), netx.TCPSeg{SrcPort: sport, DstPort: port, Seq: seq, Ack: ack, Flags: flags, Wnd: 65535, Payload: pl})
+		return netx.IPv4Packet([]byte(R), []byte(A), 6, uint16(seq), 0, 64, t)
+	}
+	link.Inject(netNum(pV4), seg(netx.FlagSyn, iss, 0, nil))
+	var irs uint32
+	gotSA := false
+	deadline := time.Now().Add(patience())
+	for !gotSA && time.Now().Before(deadline) {
+		rs, _ := w.tcpFrames()
+		for _, f := range rs {
+			if f.flags == netx.FlagSyn|netx.FlagAck && f.dport == sport && f.ack == iss+1 {
+				irs, gotSA = f.seq, true
+			}
+		}
+		if !gotSA {
+			time.Sleep(time.Millisecond)
+		}
+	}
+	if !gotSA {
+		timeouts++
+		w.stats["accepted/no-synack"]++
+		return "Hist [" + strings.Join(w.evs, "; ") + "]"
+	}
+	link.Inject(netNum(pV4), seg(netx.FlagAck, iss+1, irs+1, nil))
+	var C tcpip.Endpoint
+	deadline = time.Now().Add(patience())
+	for C == nil && time.Now().Before(deadline) {
+		ep, _, err := L1.ep.Accept()
+		if err == nil {
+			C = ep
+		} else {
+			time.Sleep(time.Millisecond)
+		}
+	}
+	if C == nil {
+		timeouts++
+		w.stats["accepted/no-accept"]++
+		return "Hist [" + strings.Join(w.evs, "; ") + "]"
+	}
+	id := stack.TransportEndpointID{LocalPort: port, LocalAddress: tcpip.Address(A), RemotePort: sport, RemoteAddress: tcpip.Address(R)}
+	regnic, nreg := -1, 0
+	for _, reg := range w.s.VerifRegs() {
+		if reg.ID == id {
+			regnic = int(reg.NIC)
+			nreg++
+		}
+	}
+	child := 500
+	w.emit("EAccept %d %d %s %d %d %d", nic, pV4, tidStr(id), regnic, nreg, child)
+	w.stats["accepted"]++
+	// listeners around the connection
+	switch variant {
+	case 0, 3: // the first listener stays
+	case 1, 4: // closed, a listener on the specific address of the connection takes the port
+		w.closeSock(L1)
+		L2 := w.newSock(pTCP, pV4)
+		w.bind(L2, 0, A, port)
+		w.listen(L2)
+	case 2, 5: // closed, a wildcard listener takes the port
+		w.closeSock(L1)
+		L2 := w.newSock(pTCP, pV4)
+		w.bind(L2, 0, "", port)
+		w.listen(L2)
+	}
+	if r.Intn(3) == 0 { // and an unrelated udp socket on the same port
+		U := w.newSock(pUDP, pV4)
+		w.bind(U, 0, A, port)
+	}
+	w.tcpFrames()
+	pl := []byte{0xc0, 0x9e, byte(variant), byte(r.Intn(256))}
+	link.Inject(netNum(pV4), seg(netx.FlagAck|netx.FlagPsh, iss+1, irs+1, pl))
+	got := 0
+	deadline = time.Now().Add(2 * time.Second)
+	for got == 0 && time.Now().Before(deadline) {
+		v, _, err := C.Read(nil)
+		if err == nil && string(v) == string(pl) {
+			got = 1
+		} else if err == nil {
+			got = 2
+		} else {
+			time.Sleep(time.Millisecond)
+		}
+	}
+	w.emit("EData %d %d %s %d %d", nic, pV4, tidStr(id), child, got)
+	w.stats[fmt.Sprintf("accepted/data-got-%d", got)]++
+	C.Close()
+	return "Hist [" + strings.Join(w.evs, "; ") + "]"
+}
+
 func main() {
 	log.SetOutput(io.Discard)
 	seed := flag.Uint64("seed", 1, "seed")
@@ -1050,6 +1173,9 @@ func main() {
 			st = 12 + r.Intn(20)
 		}
 		fmt.Fprintln(out, history(r, st, *linger, stats))
+	}
+	for i := 0; i < *n/5+6; i++ {
+		fmt.Fprintln(out, acceptedHistory(r, stats))
 	}
 	var keys []string
 	for k := range stats {
